@@ -547,9 +547,9 @@ const checkContext = true
 
 // contextDiff compares the expression context (Session.CurrentContext()) of the kept-alive session with that of the
 // session read back from its JSON, leaving out the two values the statement exempts (webhook, legacy_extra) and the
-// two that are re-derived at the start of the next call, before anything is evaluated: `resume` (nil after a read, set
-// by the next Resume) and, for sessions started by a flow_action trigger, `parent` of a top-level run (the trigger's
-// run summary, loaded by prepareForSprint).
+// one that is re-derived at the start of the next call, before anything is evaluated: `resume` (nil after a read, set by
+// the next Resume).  `parent` of a top-level run of a flow_action session is compared too: readSession loads the trigger's
+// run summary since goflow f4c75dd.
 func contextDiff(live, reread flows.Session) string {
 	render := func(s flows.Session) (out string) {
 		defer func() {
@@ -572,12 +572,6 @@ func contextDiff(live, reread flows.Session) string {
 		delete(m, "webhook")
 		delete(m, "legacy_extra")
 		delete(m, "resume")
-		if _, fromFlowAction := s.Trigger().(flows.TriggerWithRun); fromFlowAction {
-			// @parent of a top-level run is the trigger's run summary, which prepareForSprint loads at the next call
-			if cur := currentRunOf(s); cur == nil || cur.ParentInSession() == nil {
-				delete(m, "parent")
-			}
-		}
 		b, _ = json.Marshal(m)
 		return string(b)
 	}
@@ -592,17 +586,6 @@ func contextDiff(live, reread flows.Session) string {
 		return d
 	}
 	return "raw: " + clip(a, 300) + " | " + clip(b, 300)
-}
-
-// the run Session.CurrentContext() describes: the one modified last
-func currentRunOf(s flows.Session) flows.Run {
-	var last flows.Run
-	for _, r := range s.Runs() {
-		if last == nil || r.ModifiedOn().After(last.ModifiedOn()) {
-			last = r
-		}
-	}
-	return last
 }
 
 // tokenKey: when the first differing JSON leaf of two documents is a text made of `key=value` tokens (the probe and reader
